@@ -55,3 +55,31 @@ package keeper
 //@ ensures [only_current_team_address] err == nil ==> acc(old(dispute.Params.TeamAddress)) == addrstr(msg.CurrentTeamAddress)
 //@ ensures [rejected_request_changes_nothing] err != nil ==> nothing_written()
 //@ ensures [sets_new_team_address] err == nil ==> acc(dispute.Params.TeamAddress) == addrstr(msg.NewTeamAddress)
+
+// ---- vote weights (C12) ----
+// get0(store, key) is the stored value or the zero value when absent.
+
+//@ define repcount(vc, choice) = choice == types.VoteEnum_VOTE_SUPPORT ? vc.Reporters.Support : (choice == types.VoteEnum_VOTE_AGAINST ? vc.Reporters.Against : vc.Reporters.Invalid)
+
+//@ func (k Keeper).AddReporterVoteCount(ctx, id, amount, choice) (err)
+//@ requires [counter_does_not_overflow] repcount(get0(dispute.VoteCountsByGroup, id), choice) + amount < 18446744073709551616
+//@ modifies dispute.VoteCountsByGroup
+//@ ensures [never_fails] err == nil
+//@ ensures [adds_to_the_chosen_option] repcount(dispute.VoteCountsByGroup[id], choice) == repcount(get0(old(dispute.VoteCountsByGroup), id), choice) + amount
+//@ ensures [other_options_unchanged] (choice != types.VoteEnum_VOTE_SUPPORT ==> dispute.VoteCountsByGroup[id].Reporters.Support == get0(old(dispute.VoteCountsByGroup), id).Reporters.Support) && (choice != types.VoteEnum_VOTE_AGAINST ==> dispute.VoteCountsByGroup[id].Reporters.Against == get0(old(dispute.VoteCountsByGroup), id).Reporters.Against) && ((choice == types.VoteEnum_VOTE_SUPPORT || choice == types.VoteEnum_VOTE_AGAINST) ==> dispute.VoteCountsByGroup[id].Reporters.Invalid == get0(old(dispute.VoteCountsByGroup), id).Reporters.Invalid)
+//@ ensures [other_groups_unchanged] dispute.VoteCountsByGroup[id].Users == get0(old(dispute.VoteCountsByGroup), id).Users && dispute.VoteCountsByGroup[id].Tokenholders == get0(old(dispute.VoteCountsByGroup), id).Tokenholders && dispute.VoteCountsByGroup[id].Team == get0(old(dispute.VoteCountsByGroup), id).Team
+//@ ensures [other_disputes_untouched] forall j int :: j != id ==> dispute.VoteCountsByGroup[j] == old(dispute.VoteCountsByGroup[j]) && has(dispute.VoteCountsByGroup, j) == old(has(dispute.VoteCountsByGroup, j))
+
+//@ func (k Keeper).SubtractReporterVoteCount(ctx, id, amount, choice) (err)
+//@ requires [no_counter_goes_below_zero] has(dispute.VoteCountsByGroup, id) ==> repcount(dispute.VoteCountsByGroup[id], choice) >= amount
+//@ modifies dispute.VoteCountsByGroup
+//@ ensures [fails_only_without_record] (err == nil) <==> old(has(dispute.VoteCountsByGroup, id))
+//@ ensures [subtracts_from_the_chosen_option] err == nil ==> repcount(dispute.VoteCountsByGroup[id], choice) == repcount(old(dispute.VoteCountsByGroup[id]), choice) - amount
+//@ ensures [other_groups_unchanged] err == nil ==> dispute.VoteCountsByGroup[id].Users == old(dispute.VoteCountsByGroup[id]).Users && dispute.VoteCountsByGroup[id].Tokenholders == old(dispute.VoteCountsByGroup[id]).Tokenholders && dispute.VoteCountsByGroup[id].Team == old(dispute.VoteCountsByGroup[id]).Team
+//@ ensures [other_disputes_untouched] forall j int :: j != id ==> dispute.VoteCountsByGroup[j] == old(dispute.VoteCountsByGroup[j]) && has(dispute.VoteCountsByGroup, j) == old(has(dispute.VoteCountsByGroup, j))
+
+//@ func (k Keeper).SetVoterReporterStake(ctx, id, voter, blockNumber, choice) (power, err)
+//@ modifies dispute.ReportersWithDelegatorsVotedBefore, dispute.VoteCountsByGroup, dispute.Voter
+//@ ensures [reporter_vote_excludes_stake_of_selectors_that_voted_before] err == nil && called(GetReporterTokensAtBlock) ==> power == ret(GetReporterTokensAtBlock, 0) - get0(old(dispute.ReportersWithDelegatorsVotedBefore), pair(ret(Delegation, 0).Reporter, id))
+//@ ensures [selector_voting_first_is_accumulated_for_its_reporter] err == nil && called(GetDelegatorTokensAtBlock) && !old(has(dispute.Voter, pair(id, ret(Delegation, 0).Reporter))) ==> dispute.ReportersWithDelegatorsVotedBefore[pair(ret(Delegation, 0).Reporter, id)] == get0(old(dispute.ReportersWithDelegatorsVotedBefore), pair(ret(Delegation, 0).Reporter, id)) + ret(GetDelegatorTokensAtBlock, 0) && power == ret(GetDelegatorTokensAtBlock, 0)
+//@ ensures [selector_voting_after_reporter_is_taken_out_of_reporter_power] err == nil && called(GetDelegatorTokensAtBlock) && old(has(dispute.Voter, pair(id, ret(Delegation, 0).Reporter))) ==> dispute.Voter[pair(id, ret(Delegation, 0).Reporter)].ReporterPower == old(dispute.Voter[pair(id, ret(Delegation, 0).Reporter)].ReporterPower) - ret(GetDelegatorTokensAtBlock, 0) && power == ret(GetDelegatorTokensAtBlock, 0)
